@@ -48,6 +48,11 @@ ASSUMPTIONS = []
 
 
 def gen_dump(rng):
+    r = rng.random()
+    if r < 0.15:
+        return passcorr.unary_chain_circuit(rng, 'NOT')
+    if r < 0.25:
+        return passcorr.unary_chain_circuit(rng, 'IFF')
     return gen.random_circuit(rng, n_inputs=rng.choice([0, 1, 2, 3, 3, 4, 5]), with_blocks=False)
 
 
